@@ -273,6 +273,63 @@ func Run(tier string, seed int64, outDir string) *common.Meta {
 		}
 		meta.Distribution["user_rule_lines_sequential_driver"] = len(seqAn)
 	}
+	// 2d. concurrent passes over packages of TWO modules with different go directives (no -go flag): whatever the passes
+	// share must not let the first scheduled package decide for the others; the version-gated checkers make it visible
+	{
+		mw := filepath.Join(outDir, "ws4mv")
+		os.RemoveAll(mw)
+		defer os.RemoveAll(mw)
+		common.WriteFile(filepath.Join(mw, "go.mod"), "module mva\n\ngo 1.21\n\nrequire mvb v0.0.0\n\nreplace mvb => ./mvb\n")
+		common.WriteFile(filepath.Join(mw, "mvb", "go.mod"), "module mvb\n\ngo 1.12\n")
+		body := func(pkg string) string {
+			return "package " + pkg + "\n\nimport (\n\t\"strings\"\n\t\"sync\"\n\t\"time\"\n)\n\nconst Mode = 0755\n\nfunc Has(s, sub string) bool { return strings.Index(s, sub) >= 0 }\n\nfunc Millis(t time.Time) int64 { return t.Unix() / 1000 }\n\nfunc Take(m *sync.Map, k string) (interface{}, bool) {\n\tv, ok := m.Load(k)\n\tif ok {\n\t\tm.Delete(k)\n\t}\n\treturn v, ok\n}\n"
+		}
+		for i := 0; i < 10; i++ {
+			pa, pb := fmt.Sprintf("a%02d", i), fmt.Sprintf("b%02d", i)
+			common.WriteFile(filepath.Join(mw, pa, "x.go"), body(pa))
+			common.WriteFile(filepath.Join(mw, "mvb", pb, "x.go"), body(pb))
+		}
+		common.WriteFile(filepath.Join(mw, "use", "use.go"), "package use\n\nimport _ \"mvb/b00\"\n")
+		run := func(xenv []string, args ...string) ([]string, bool) {
+			_, stderr, _, err := common.RunSplit(600*time.Second, mw, append(append([]string(nil), env...), xenv...), filepath.Join(bin, "go-critic-analysis-race"), args...)
+			runs++
+			if err != nil {
+				meta.Fail("C04/go-critic-analysis-race/hang", err.Error(), args)
+				return nil, false
+			}
+			if strings.Contains(stderr, "WARNING: DATA RACE") {
+				meta.Fail("C04/go-critic-analysis-race/data-race", fmt.Sprintf("two-module workspace %v reports a data race: %s", args, raceExcerpt(stderr)), map[string]interface{}{"args": args, "report": raceExcerpt(stderr)})
+				return nil, false
+			}
+			ls := lines(stderr)
+			sort.Strings(ls)
+			return ls, true
+		}
+		sel := []string{"-enable=octalLiteral,wrapperFunc,timeExprSimplify,syncMapLoadAndDelete", "-disable="}
+		o1 := append(append([]string(nil), sel...), "./...", "mvb/...")
+		o2 := append(append([]string(nil), sel...), "mvb/...", "./...")
+		seq1, ok1 := run([]string{"GOMAXPROCS=2"}, append([]string{"-debug=p"}, o1...)...)
+		seq2, ok2 := run([]string{"GOMAXPROCS=2"}, append([]string{"-debug=p"}, o2...)...)
+		if ok1 && ok2 && strings.Join(seq1, "\n") != strings.Join(seq2, "\n") {
+			meta.Fail("C04/analyzer/two-modules-order-of-packages-decides", fmt.Sprintf("sequential driver over two modules with different go directives: %d lines for `./... mvb/...`, %d for `mvb/... ./...`: %s", len(seq1), len(seq2), firstDiff(strings.Join(seq1, "\n"), strings.Join(seq2, "\n"))), map[string]interface{}{"args": o1})
+		}
+		reps := 3
+		if tier == "thorough" {
+			reps = 10
+		}
+		for i := 0; ok1 && i < reps; i++ {
+			order := o1
+			if i%2 == 1 {
+				order = o2
+			}
+			par, okp := run([]string{"GOMAXPROCS=16"}, order...)
+			if okp && strings.Join(par, "\n") != strings.Join(seq1, "\n") {
+				meta.Fail("C04/analyzer/two-modules-parallel-differs-from-sequential", fmt.Sprintf("parallel driver over two modules with different go directives (run %d): %d lines, sequential driver %d: %s", i+1, len(par), len(seq1), firstDiff(strings.Join(seq1, "\n"), strings.Join(par, "\n"))), map[string]interface{}{"args": order})
+				break
+			}
+		}
+		meta.Distribution["two_module_lines_sequential_driver"] = len(seq1)
+	}
 	mark("2c-user-rules")
 	anOut := map[int][]string{}
 	for i, r := range raceRuns {
